@@ -35,6 +35,8 @@ def cfg_hook(rng, cfg, fam, i):
         cfg["acc"], cfg["mode"] = "ethos-u65-512", None
     if fam == "lut-stress" and i % 2:
         cfg["acc"] = str(rng.choice(["ethos-u55-32", "ethos-u55-64"]))  # no reserved LUT banks: slots are invalidated by other ops
+        if i % 3:
+            cfg["optimise"] = "Size"  # cascades: a table operation runs as several stripes with other operations in between
 
 
 def gen_cases(tier, seed):
